@@ -74,7 +74,7 @@ def run(ck, rng):
     if rc != 0 or rc2 != 0 or out2 != SAMPLE:
         ck.violation({"property": "C16", "kind": "cli", "class": "template", "why": "'gtree template | gtree output' does not print the documented sample tree",
                       "got": out2.decode("utf-8", "replace"), "exit": [rc, rc2]})
-    lib_cases, jobs = [], []
+    lib_cases, jobs, model_cases = [], [], []
     for _ in range(n):
         kind = rng.choice(["output", "output", "output", "mkdir", "mkdir", "verify", "usage"])
         hostile = rng.random() < 0.2
@@ -101,6 +101,7 @@ def run(ck, rng):
         stdout_mode = rng.choice(["pipe", "pipe", "pipe", "full", "closed"])
         via_file = rng.choice([None, None, "in.md", "-", "missing.md"])
         args, pre, lib, expect_usage_err, expect_open_err = [], [], None, False, False
+        mfmt, mdry, mexts, mtarget, mstrict = "-", "0", [], b"", "0"
         stdin = doc
         if via_file == "in.md":
             pre.append((b"in.md", "f"))
@@ -111,6 +112,7 @@ def run(ck, rng):
                 args += ["--format", fmt]
             if massive:
                 args += [rng.choice(["--massive", "-m"])]
+            mfmt = fmt or "-"
             enc = {"": "d", "json": "j", "yaml": "y", "toml": "t"}.get(fmt)
             if enc is None:
                 expect_usage_err = True
@@ -120,6 +122,7 @@ def run(ck, rng):
             dry = rng.random() < 0.4
             exts = rng.choice(EXT_LISTS[:5])
             target = rng.choice([b"", b"tgt", b"sub/tgt"])
+            mdry, mexts, mtarget = ("1" if dry else "0"), exts, target
             args = ["mkdir"]
             if dry:
                 args += [rng.choice(["--dry-run", "-d"])]
@@ -138,6 +141,7 @@ def run(ck, rng):
         elif kind == "verify":
             strict = rng.random() < 0.5
             target = rng.choice([b"", b"tgt"])
+            mstrict, mtarget = ("1" if strict else "0"), target
             args = ["verify"] + (["--strict"] if strict else []) + (["--target-dir", target.decode()] if target else [])
             np_ = node_paths(flat_merged(items), [])
             pre += [(tjoin(target, p), "d") for p, _, _ in np_ if rng.random() < 0.9 and single_elem(p.split(b"/")[-1])]
@@ -159,8 +163,15 @@ def run(ck, rng):
                 expect_open_err = True
         jobs.append((kind, args, stdin, stdout_mode, pre, lib, expect_usage_err, expect_open_err, doc, via_file, massive))
         lib_cases.append(lib or "settle")
+        mpre = [(p_, k_) for p_, k_ in pre if p_ != b"in.md"]
+        model_cases.append("cli %s %s %s %s %s %s %s %s %s %s %s" % (
+            kind if kind != "usage" else args[0] if args[0] in ("output", "mkdir", "verify", "template") else "output",
+            "1" if (expect_usage_err and mfmt not in ("xml",)) or kind == "usage" else "0", mfmt, "1" if expect_open_err else "0", mdry,
+            exts_plus(mexts), hx(mtarget), mstrict, "0" if stdout_mode == "full" else "-", snap_arg(mpre), hx(doc)))
     libres, _ = run_impl(exe, lib_cases)
-    for (kind, args, stdin, stdout_mode, pre, lib, usage_err, open_err, doc, via_file, massive), lr in zip(jobs, libres):
+    modelres = run_model(model_cases)
+    broken = None
+    for (kind, args, stdin, stdout_mode, pre, lib, usage_err, open_err, doc, via_file, massive), lr, mr in zip(jobs, libres, modelres):
         pre2 = list(pre)
         if via_file == "in.md":
             pre2 = [(p, k) for p, k in pre if p != b"in.md"]
@@ -222,11 +233,23 @@ def run(ck, rng):
                 fs_after = {k: v for k, v in after.items() if k != b"in.md"}
                 if fs_after != lib_snap:
                     bad = "file-system effect differs from the library's: %r" % sorted(set(fs_after.items()) ^ set(lib_snap.items()))[:3]
+        if not bad and not massive and mr != "badcase" and not mr.startswith("exn"):
+            # correspondence with the Gallina model of the CLI (Api/Cli.v): exit status, stdout bytes, file system
+            mcode, mout, msnap = mr.split(" ")
+            mcode = int(mcode)
+            codes_agree = (mcode == rc) or (mcode != 0 and rc != 0 and kind == "usage")
+            fs_now = {k: v for k, v in after.items() if k != b"in.md"}
+            if not codes_agree:
+                broken = broken or ("cli " + " ".join(args), "exit %d" % rc, "model exit %d" % mcode)
+            elif stdout_mode == "pipe" and kind in ("output", "mkdir") and mout not in ("-",) and "yaml" not in args and "toml" not in args and unhx(mout) != out:
+                broken = broken or ("cli " + " ".join(args), out[:200].hex(), mout[:400])
+            elif kind in ("mkdir", "verify") and not usage_err and not open_err and parse_snap(msnap) != fs_now:
+                broken = broken or ("cli " + " ".join(args), "fs differs", msnap[:300])
         if bad:
             ck.violation({"property": "C16", "kind": "cli", "class": kind + "|" + stdout_mode + "|" + bad[:20], "argv": args, "stdout_state": stdout_mode,
                           "input_hex": hx(doc), "input": doc[:200].decode("utf-8", "replace"), "exit": rc, "stderr": err[:300].decode("utf-8", "replace"),
                           "stdout": out[:300].decode("utf-8", "replace"), "library": lr[-400:], "why": bad, "pre_state": [(p.decode(), k) for p, k in pre]})
-    return None
+    return broken
 
 
 def run_cli_doc(cli, args, stdin, stdout_mode, pre, doc, via_file):
